@@ -226,7 +226,7 @@ def _param_cases():
     out = []
     for centre in ('peak', 'trough'):
         side = 'trough' if centre == 'peak' else 'peak'
-        for param in ('amp_fraction', 'period_consistency'):
+        for param in ('amp_fraction', 'amp_consistency', 'period_consistency', 'monotonicity'):
             cols = dict(shape_frame_type(centre)[1])
             cols.update({f: XR for f in FEATS})
             cols['is_burst'] = BOOL
@@ -254,3 +254,89 @@ def _param_cases():
 
 
 contract('bycycle.plts.burst.plot_burst_detect_param', cases=_param_cases(), raises={'ValueError': "fs < 0"}, modifies=['ax'])
+
+
+# ------------------------------------------------------------------------------------------------ plot_burst_detect_summary (experiment)
+MASK = "call_arg('neurodsp.plts.plot_bursts', 'bursting')"
+MASK_T = "call_arg('neurodsp.plts.plot_bursts', 'times')"
+# C20: the highlighted samples are all samples of every cycle labelled is_burst ...
+MASK_ALL = ("forall(i, 0 <= i < len(df_features) and df_features['is_burst'][i], "
+            "forall(j, df_features['sample_last_{s}'][i] <= j <= df_features['sample_next_{s}'][i], {B}[j]))")
+# ... and only samples of such cycles
+MASK_ONLY = ("forall(j, 0 <= j < len(sig) and {B}[j], exists(i, 0 <= i < len(df_features), df_features['is_burst'][i] and "
+             "df_features['sample_last_{s}'][i] <= j and j <= df_features['sample_next_{s}'][i]))")
+
+
+def _mask_proof(side):
+    """from the loop invariant over the bursting rows (df_osc = the rows selected by is_burst, in order) to the statement over
+    the whole table: a bursting row i is row cnt(i) of the selection, and row r of the selection is row g(r) of the table"""
+    def h(P):
+        import z3
+        E, env = P.E, P.env
+        F = E.st.ghost['facts']
+        dfo = env['df_osc']
+        f0, g, cnt = dfo.meta['rows_of']
+        inst = _inst_of(E, g)
+        key = [k for k, v in E.st.ghost.items() if isinstance(k, tuple) and k and k[0] == 'cmap' and isinstance(v, tuple) and v[1].eq(g)][0]
+        ax = E.st.ghost['cmap_axioms'][key]
+        env2 = dict(E.entry_env)
+        env2['result'] = None
+        inv, ex = F['loop1-inv'], F['loop1-exit']
+        exs = ex if isinstance(ex, list) else [ex]
+
+        def by_all(i):
+            return [inst['hit'](i), inst['rec'](i), inst['base']] + [P.inst_formula(f, cnt(i)) if (z3.is_quantifier(f) and f.num_vars() == 1) else f
+                                                                       for f in inv] + exs
+        P.prove_clause('mask:all', MASK_ALL.format(B=MASK, s=side), env2, by_all)
+        P.prove_clause('mask:only', MASK_ONLY.format(B=MASK, s=side), env2,
+                       lambda j: [P.inst_formula(f, j) if (z3.is_quantifier(f) and f.num_vars() == 1) else f for f in inv] + exs + list(ax))
+    return h
+
+
+def _summary_cases():
+    from .features_burst import shape_frame_type
+    from .burst import FEATS
+    out = []
+    for centre, only in (('peak', True), ('trough', True), ('peak', False), ('trough', False)):
+        side = 'trough' if centre == 'peak' else 'peak'
+        cols = dict(shape_frame_type(centre)[1])
+        cols.update({f: XR for f in FEATS})
+        cols['is_burst'] = BOOL
+        out.append(dict(
+            label='%s-centred,xlim=None,only-result=%s' % (centre, only),
+            params={'df_features': ('frame', cols), 'sig': ('arr', REAL), 'fs': REAL,
+                    'threshold_kwargs': ('dictp', {'amp_fraction_threshold': REAL, 'monotonicity_threshold': REAL}), 'xlim': 'none',
+                    'figsize': ('tuple', [INT, INT]), 'plot_only_result': ('const', only), 'interp': ('const', True)},
+            requires=["fs > 0", "len(sig) >= 2",
+                      "forall(i, 0 <= i < len(df_features), 0 <= df_features['sample_%s'][i] and "
+                      "df_features['sample_%s'][i] < len(sig))" % (centre, centre),
+                      "forall(i, 0 <= i < len(df_features), 0 <= df_features['sample_last_%s'][i] and "
+                      "df_features['sample_last_%s'][i] < df_features['sample_next_%s'][i] and "
+                      "df_features['sample_next_%s'][i] < len(sig))" % (side, side, side, side)],
+            loops={1: dict(index='k', mutates=['is_osc'], invariant=[
+                "len(is_osc) == len(sig)",
+                "forall(r, 0 <= r < k, forall(j, df_osc['sample_last_%s'][r] <= j <= df_osc['sample_next_%s'][r], is_osc[j]))" % (side, side),
+                "forall(j, 0 <= j < len(sig) and is_osc[j], exists(r, 0 <= r < k, df_osc['sample_last_%s'][r] <= j and "
+                "j <= df_osc['sample_next_%s'][r]))" % (side, side)]),
+                   2: dict(index='k2', invariant=[]), 3: dict(index='k3', invariant=[])},
+            proof={('before_return',): _mask_proof(side)},
+            ensures_using={3: ['mask:all'], 4: ['mask:only']},
+            ensures=["result is None",
+                     "len({B}) == len(sig) and len({T}) == len(sig) and forall(j, 0 <= j < len(sig), {T}[j] == j / fs)".format(B=MASK, T=MASK_T),
+                     MASK_ALL.format(B=MASK, s=side), MASK_ONLY.format(B=MASK, s=side)] + ([] if only else [
+                         # the (last) parameter panel is drawn from the same table with its own column and threshold
+                         "call_arg(PARAM, 'df_features') is df_features and call_arg(PARAM, 'burst_param') == 'monotonicity' and "
+                         "call_arg(PARAM, 'thresh') == value(threshold_kwargs, 'monotonicity_threshold') and "
+                         "call_arg(PARAM, 'xlim') is None and call_arg(PARAM, 'fs') == fs".replace(
+                             "PARAM", "'bycycle.plts.burst.plot_burst_detect_param'")])))
+    return out
+
+
+def _summary_abstract(E, args, node):
+    """a call with an opaque table (Bycycle.plot at object level): bound against the real signature and logged"""
+    from vf.calls import byc_plot_summary_logged
+    return byc_plot_summary_logged(E, args, node)
+
+
+contract('bycycle.plts.burst.plot_burst_detect_summary', cases=_summary_cases(), raises={'ValueError': "fs < 0"}, modifies=[],
+         abstract=_summary_abstract)
